@@ -12,20 +12,20 @@ LEAN_MODULE = 'PncProofs.C08'
 LEAN_FILE = 'PncProofs/C08.lean'
 NAMESPACE = 'Props.C08'
 LEAN_CONE = ['PncModel.Words', 'PncModel.Camx.Landuse', 'PncModel.Camx.Uamiv', 'PncModel.Camx.Slab', 'PncProofs.WordsLemmas', 'PncProofs.LanduseLemmas', 'PncProofs.LanduseThms', 'PncProofs.UamivLemmas',
-             'PncProofs.BridgeLemmas', 'PncProofs.SlabLemmas', 'PncProofs.C13', 'PncProofs.C08']
+             'PncProofs.BridgeLemmas', 'PncProofs.SlabLemmas', 'PncModel.Camx.WindRead', 'PncModel.Camx.CloudRainRead', 'PncModel.Camx.BoundaryRead', 'PncProofs.WindLemmas', 'PncProofs.CloudRainLemmas', 'PncProofs.BoundaryLemmas', 'PncProofs.C09', 'PncProofs.C13', 'PncProofs.C08']
 LEMMA_FILES = ['PncProofs/BridgeLemmas.lean']
 REQUIRED_THEOREMS = ['roundtrip', 'readers_agree_on_encodings', 'date_roundtrip', 'hours_roundtrip',
-                     'hour_bits_roundtrip', 'slab_roundtrip', 'landuse_roundtrip']
+                     'hour_bits_roundtrip', 'slab_roundtrip', 'landuse_roundtrip', 'wind_roundtrip', 'cloud_rain_roundtrip', 'boundary_roundtrip']
 RULE = ('CAMx-convention files (all NAME variants, 1-3 species, nx, ny 1-4, nz 1-3, 1-3 whole-hour steps of 1 or '
         '3 hours starting at any date 1970-2068 and hour, with day/year/leap/century roll-overs over-sampled, any '
         'finite float32 payload incl. denormals and -0, with and without ETFLAG) written by the library (pncgen '
         'format=uamiv), read back (Memmap), re-written and compared byte for byte; the model predicts the bytes '
         'and the view; slab formats (one3d, humidity, vertical diffusivity, temperature, height/pressure; 2-4 steps incl. '
         'midnight and year-end starts): written by the library writer, read back with the Memmap reader, compared with what '
-        'was written (model: Lean encoder + reader model) and re-written byte for byte; year ends incl. 2000 (century leap year) with end flags derived from TSTEP; cloud/rain and lateral boundary files: reference file read, written back byte for byte and read again; landuse files (both styles, 0-2 optional fields, the fractions under either name, optional fields created in either order): written, read back, compared with the data set and the Lean writer/reader models, re-written byte for byte; '
+        'was written (model: Lean encoder + reader model) and re-written byte for byte; year ends incl. 2000 (century leap year) with end flags derived from TSTEP; cloud/rain, lateral boundary and wind files (both time-header variants, stagger flag 0 and 1): reference file read, written back byte for byte and read again, wind also written from an in-memory data set; landuse files (both styles, 0-2 optional fields, the fractions under either name, optional fields created in either order): written, read back, compared with the data set and the Lean writer/reader models, re-written byte for byte; '
         'non-trivial = two or more of nspec, cells, nz, nt > 1')
 ASSUMPTIONS = ['float32 <-> bits and numpy tofile/memmap are trusted',
-               'covers the uamiv family, the five slab formats, landuse, cloud_rain (3- and 5-variable files) and lateral_boundary (read, write back, same bytes); wind has no writer/reader pair of one family']
+               'covers the uamiv family, the five slab formats, landuse, cloud_rain (3- and 5-variable files), lateral_boundary and wind (read, write back, same bytes, read again; wind also data set -> writer -> reader)']
 MIN_NONTRIVIAL = {'quick': 30, 'thorough': 300}
 
 
@@ -55,7 +55,69 @@ def gen(rng, tier):
         c['family'] = 'bnd'
         c['kind'] = 'bnd'
         out.append(c)
+    # wind files (three-word time header with stagger flag 0 or 1, and the older two-word header): reference file ->
+    # Memmap reader -> writer -> the same bytes, read again; and data set -> writer -> reader
+    for i in range(n // 6):
+        c = S.gen_wind(rng)
+        c['family'] = 'wind'
+        c['vdtype'] = rng.choice(['f', 'f', 'd'])
+        out.append(c)
     return out
+
+
+def _impl_wind(case):
+    from PseudoNetCDF.pncgen import pncgen
+    p1 = os.path.join(camx.tmpdir(), 'c08w_%d_%d.bin' % (os.getpid(), np.random.randint(1 << 30)))
+    p2, p3 = p1 + '.again', p1 + '.built'
+    res = {}
+    try:
+        with lib.pnc_warnings():
+            b = S.wind_encode(case)
+            res['hex'] = b.hex()
+            open(p1, 'wb').write(b)
+            with lib.time_limit(20):
+                f = S.wind_open(case, p1, 'memmap')
+                res['view'] = S.wind_view(f, case)
+                pncgen(f, p2, format='camxfiles.wind', verbose=0)
+                b2 = open(p2, 'rb').read()
+                res['rewrite_same'] = (b == b2)
+                res['diff_at'] = next((i for i, (x, y) in enumerate(zip(b, b2)) if x != y), min(len(b), len(b2)))
+                res['reread'] = S.wind_view(S.wind_open(case, p2, 'memmap'), case)
+                # a data set built in memory (float32 or float64 variables) through the writer and back
+                pncgen(S.wind_build(case, case['vdtype']), p3, format='camxfiles.wind', verbose=0)
+                res['built_hex'] = open(p3, 'rb').read().hex()
+                res['built_view'] = S.wind_view(S.wind_open(case, p3, 'memmap'), case)
+        return res
+    except lib.HarnessError:
+        raise
+    except Exception as e:
+        res['err'] = type(e).__name__
+        res['msg'] = str(e)[:120]
+        return res
+    finally:
+        for q in (p1, p2, p3):
+            if os.path.exists(q):
+                os.remove(q)
+
+
+def _oracle_wind(case, res):
+    if 'err' in res:
+        return 'raised %s %s' % (res['err'], res.get('msg'))
+    want = {k: [w for slabs in case['data'] for z in range(case['nz']) for w in slabs[2 * z + vi]]
+            for vi, k in enumerate(('U', 'V'))}
+    for nm in ('view', 'reread', 'built_view'):
+        v = res[nm]
+        if (v['nt'], v['nz']) != (float(len(case['flags'])), float(case['nz'])):
+            return '%s: nt,nz = %s,%s, the file holds %d,%d' % (nm, v['nt'], v['nz'], len(case['flags']), case['nz'])
+        if v['vars'] != want:
+            return '%s: U/V data differ from the content of the file' % nm
+    if res['reread'].get('tflag') != res['view'].get('tflag'):
+        return 'time flags changed in the re-written file: %s -> %s' % (res['view'].get('tflag'), res['reread'].get('tflag'))
+    if not res['rewrite_same']:
+        return 're-writing the file that was read changed the bytes (first difference at byte %d)' % res['diff_at']
+    if case['stag'] is not None and res['built_hex'] != res['hex']:
+        return 'the file written from the in-memory data set differs from the reference encoding'
+    return None
 
 
 def _impl_slab(case):
@@ -113,6 +175,8 @@ def _impl_cr(case):
 
 
 def impl(case):
+    if case.get('family') == 'wind':
+        return _impl_wind(case)
     if case.get('family') == 'cr':
         return _impl_cr(case)
     if case.get('family') == 'bnd':
@@ -152,6 +216,8 @@ def impl(case):
 
 
 def to_line(case, res):
+    if case.get('family') == 'wind':
+        return S.wind_line(case)
     if case.get('family') == 'cr':
         from . import c09
         return c09._cr_line(case)
@@ -170,6 +236,11 @@ def to_line(case, res):
 
 
 def agree(case, out, res):
+    if case.get('family') == 'wind':
+        if out != 'ok ' + res['hex']:
+            return 'the python reference encoder and the Lean wind encoder differ'
+        # the reader on the reference file against the Lean reader model
+        return S.wind_model_diff(case, res['hex'], res['view']) if 'view' in res else None
     if case.get('family') in ('cr', 'bnd'):
         if 'err' in res:
             return None
@@ -231,6 +302,8 @@ def _oracle_slab(case, res):
 
 
 def oracle(case, res):
+    if case.get('family') == 'wind':
+        return _oracle_wind(case, res)
     if case.get('family') == 'cr':
         from . import c09
         if c09._cr_ambiguous(case):
@@ -282,6 +355,8 @@ def classify(case, failure, model_out):
 
 
 def nontrivial(case, res):
+    if case.get('family') == 'wind':
+        return 'err' not in res
     if case.get('family') in ('cr', 'bnd'):
         return 'err' not in res
     if case.get('family') == 'land':
@@ -296,6 +371,10 @@ def distribution(recs):
     d = {}
     for r in recs:
         c = r['case']
+        if c.get('family') == 'wind':
+            k = 'wind_stag_%s' % c['stag']
+            d[k] = d.get(k, 0) + 1
+            continue
         if c.get('family') in ('cr', 'bnd'):
             d[c['family']] = d.get(c['family'], 0) + 1
             continue
